@@ -9,7 +9,7 @@ THEOREMS = ["Genql.C20." + t for t in [
 TRUSTED = ["the evaluation order (rows in source order, select-list items left to right) is supplied by the harness as the "
            "history; that SelectExpr/ExecSelect really evaluate in this order is what the correspondence checks"]
 RULE = ("histories over 1-4 keys spread across 1-6 select-list positions and 0-10 rows, and sequences of 1-4 queries sharing one "
-        "variable map; rows (GETVAR columns, no SETVAR column) and the caller's final map are compared with the Lean store model "
+        "variable map, each query flat or as a CTE body / derived table / UNION ALL branch / under LIMIT-OFFSET; rows (GETVAR columns, no SETVAR column) and the caller's final map are compared with the Lean store model "
         "run on the row-major, left-to-right history; non-trivial = a key read after >=2 writes, or across rows/queries")
 
 KEYS = ["k1", "k2", "k3", "weird key", "1", "2.5", "true"]
@@ -49,7 +49,25 @@ def gen_query(rnd, qi):
                 ops.append(["set", it[1], enc_val(v)])
             else:
                 ops.append(["get", it[1]])
-    return {"doc": {"t": rows}, "sql": query_sql(q), "items": items, "ops": ops}
+    # the same history through other statement forms: the select list is evaluated for every source row, in order,
+    # wherever the SELECT sits (CTE body, derived table, union branch) and whatever window is cut afterwards
+    form = rnd.choice(["flat", "flat", "flat", "cte", "derived", "limit", "union"])
+    sql = query_sql(q)
+    window, passes = None, 1
+    if form == "cte":
+        sql = "WITH c AS (" + sql + ") SELECT * FROM c"
+    elif form == "derived":
+        outs = [it[2] for it in items if it[0] == "get"] + ["id"]
+        sql = "SELECT " + ", ".join("x.%s AS %s" % (o, o) for o in outs) + " FROM (" + sql + ") x"
+    elif form == "limit":
+        lim, off = rnd.randint(0, n + 1), rnd.choice([None, 0, 1, 2])
+        sql += " LIMIT %d" % lim + ("" if off is None else " OFFSET %d" % off)
+        window = (off or 0, lim)
+    elif form == "union":
+        sql = sql + " UNION ALL " + sql
+        ops = ops + ops
+        passes = 2
+    return {"doc": {"t": rows}, "sql": sql, "items": items, "ops": ops, "form": form, "window": window, "passes": passes}
 
 
 def explore(chk, rnd, tier):
@@ -78,14 +96,23 @@ def explore(chk, rnd, tier):
             cols = l["cols"]
             k = len(qc["items"])
             bad = None
-            if len(rows) != len(qc["doc"]["t"]):
+            chk.count("form:" + qc["form"])
+            # which (pass, source row) each output row stands for
+            src = [(p, ri) for p in range(qc["passes"]) for ri in range(len(qc["doc"]["t"]))]
+            if qc["window"] is not None:
+                off, lim = qc["window"]
+                src = src[off:off + lim]
+            nrows = len(qc["doc"]["t"])
+            if len(rows) != len(src):
                 bad = "row count"
             else:
-                for ri, row in enumerate(rows):
+                for (ps, ri), row in zip(src, rows):
                     if "sv" in row:
                         bad = "SETVAR produced a column"
+                    if row.get("id") != float(ri):
+                        bad = "row order"
                     for ii, it in enumerate(qc["items"]):
-                        c = cols[ri * k + ii]
+                        c = cols[(ps * nrows + ri) * k + ii]
                         if it[0] == "get":
                             want = None if c is None else dec_val(c)
                             if it[2] not in row or canon(row[it[2]]) != canon(want):
